@@ -33,6 +33,10 @@ def execute(fid, cdb, data_out, data_in, max_sense_data_length=32, return_sense_
                          None if data_in is None else len(data_in), fid))
     if closed:
         raise ValueError("I/O operation on closed file")
+    mode = getattr(fid, "mode", "rb+")
+    if data_out is not None and len(data_out) and "+" not in mode and "w" not in mode:
+        # the sg driver refuses data-out transfers on descriptors opened read-only
+        raise PermissionError(1, "SG_IO: data-out transfer on a read-only descriptor")
     h = routes.get(getattr(fid, "name", None), handler)
     if h is None:
         return 0
